@@ -7,5 +7,17 @@ CLAIMS = {
         "note": "trusted: Lean kernel (+propext, Classical.choice, Quot.sound), the translator for Gen/PosArith, the correspondence harness; assumed: tar reader/writer contract, SQLite query semantics, float exactness of math.Ceil below 2^53",
         "technique": "Lean 4 proof over regenerated arithmetic + invariant by induction over histories; differential correspondence",
     },
+    "C05": {
+        "text": "Proof (Lean 4). For every call in every state the model's tape afterwards is the tape before plus a suffix (step_appends, history_appends, by induction over histories through a program logic for the model's state monad); the tape stays a concatenation of archives = non-empty run of records + trailer (archives_well_formed); every mutating method with a precondition is guard >>= effect with a read-only guard, so a failed precondition leaves tape, table and drive state untouched (failed_precondition_appends_nothing, for Mkdir/Remove/Rename/Chmod/Chown/Chtimes/Symlink); the drive-open flags are regenerated from pkg/tape/write.go and manager.go on every run and proved to be O_APPEND without O_TRUNC outside `overwrite`, with Truncate only under `overwrite` and `overwrite` latched. Partial: the guard/effect factoring is not yet stated for Create/OpenFile/MkdirAll (their creation path interleaves probes and effects); byte-level well-formedness of what archive/tar writes is an assumption checked by the oracle's independent reader after every call.",
+        "design_ref": "DESIGN.md §8 C05",
+        "note": "trusted: Lean kernel (+propext, Classical.choice, Quot.sound), translator for Gen/OpenFlags, correspondence harness; assumed: O_APPEND semantics of the OS, archive/tar writes whole blocks and valid headers",
+        "technique": "Lean 4 proof: invariant by induction over histories + decide over regenerated open-flag table; differential correspondence",
+    },
+    "C15": {
+        "text": "Proof (Lean 4). On the model with readOnly = true: every mutating filesystem method returns permission and leaves the whole state unchanged (mutating_calls_denied, for all states and arguments); every other call except Initialize leaves tape, table (tombstones included) and drive state unchanged and keeps all handles read-only, including OpenFile with any flag word and writes/syncs/closes on such handles (readonly_step, readonly_history by induction over histories); Initialize never touches the tape and cannot fall back to creating a root (readonly_initialize_keeps_tape). The guard table is regenerated from pkg/fs on every run and proved (decide) to put the readOnly / write-flag guard before every lock and effect. That read calls return what a writable instance returns is decided by the correspondence (the model's read path does not look at readOnly) on populated tapes reopened read-only with the index kept or dropped, with and without a write backend.",
+        "design_ref": "DESIGN.md §8 C15",
+        "note": "trusted: Lean kernel (+propext, Classical.choice, Quot.sound), translator for Gen/Guards, correspondence harness",
+        "technique": "Lean 4 proof: invariant by induction over histories + decide over regenerated guard table; differential correspondence",
+    },
 }
 NOT_APPLICABLE = {}
